@@ -59,6 +59,10 @@ type Opts struct {
 	Thorough int    // number of cases in the thorough tier (summed over shards)
 	Rule     string // non-triviality rule (text, for evidence)
 	MaxSamples int
+	// Journal: write every case to $VERIF_WORK/journal-<property>-<name>.json
+	// before it runs, so that a crash of the whole process (a fatal
+	// runtime error cannot be trapped) still leaves a replayable case.
+	Journal bool
 }
 
 type stats struct {
@@ -324,6 +328,9 @@ func RunWith[C any](t *testing.T, r *Rec, gen func(*rapid.T) C, check func(C) Ve
 			t.Fatalf("%s: bad case: %v", what, err)
 		}
 		r.setCurrent(raw, "")
+		if o.Journal {
+			journal(o, raw)
+		}
 		v := safeCheck(check, c)
 		r.record(raw, &v)
 		if v.Err != "" {
@@ -376,6 +383,9 @@ func RunWith[C any](t *testing.T, r *Rec, gen func(*rapid.T) C, check func(C) Ve
 			rt.Fatalf("case not serialisable: %v", err)
 		}
 		r.setCurrent(raw, "")
+		if o.Journal {
+			journal(o, raw)
+		}
 		v := safeCheck(check, c)
 		r.record(raw, &v)
 		if v.Skip {
@@ -386,6 +396,16 @@ func RunWith[C any](t *testing.T, r *Rec, gen func(*rapid.T) C, check func(C) Ve
 			rt.Fatalf("%s", v.Err)
 		}
 	})
+}
+
+func journal(o Opts, raw []byte) {
+	dir := os.Getenv("VERIF_WORK")
+	if dir == "" {
+		return
+	}
+	doc, _ := json.Marshal(map[string]interface{}{"property": o.Property, "check": o.Name,
+		"message": "the process died while running this case", "case": json.RawMessage(raw)})
+	os.WriteFile(filepath.Join(dir, "journal-"+o.Property+"-"+o.Name+".json"), doc, 0644)
 }
 
 func safeCheck[C any](check func(C) Verdict, c C) (v Verdict) {
